@@ -15,7 +15,7 @@ aggregate_by_p_id_erziehungsgeld = {
 def erziehungsgeld_m(
     erziehungsgeld_eltern_m: int,
     erziehungsgeld_anspruch_eltern: bool,
-) -> bool:
+) -> float:
     """Total parental leave benefits (Erziehungsgeld).
 
     Parental leave benefits for the parent that claims the benefit.
